@@ -9,7 +9,7 @@ id=$1; l=$2
 src=${BENROOT:-/tmp/ben}-$id/BENIGN/$l
 export GOFLAGS=-mod=mod GOPROXY=off
 [ -f "$src/patch.diff" ] || { echo "BENIGN $id-$l NO-PATCH"; exit 2; }
-wt=/tmp/wt-ben-$id-$l
+wt=/tmp/wt-ben-$id-${BENTAG:-}$l
 git -C /repo worktree remove --force "$wt" >/dev/null 2>&1
 git -C /repo worktree add --detach "$wt" HEAD >/dev/null 2>&1 || { echo "BENIGN $id-$l WORKTREE-FAILED"; exit 2; }
 trap 'git -C /repo worktree remove --force "$wt" >/dev/null 2>&1' EXIT
@@ -39,8 +39,8 @@ for cid in $ids; do
   verdicts="$verdicts $cid=$v"
   if [ "$v" != QUIET ]; then echo "$out" | grep '^VIOLATION\|HARNESS-ERROR' | head -3 | cut -c1-500; fi
 done
-echo "BENIGN $id-$l repo_tests=$([ $tests -eq 0 ] && echo pass || echo FAIL) checks:$verdicts"
-d=/verif/seeded/benign/$id-$l; mkdir -p $d; cp "$src/patch.diff" $d/
+echo "BENIGN $id-${BENTAG:-}$l repo_tests=$([ $tests -eq 0 ] && echo pass || echo FAIL) checks:$verdicts"
+d=/verif/seeded/benign/$id-${BENTAG:-}$l; mkdir -p $d; cp "$src/patch.diff" $d/
 python3 - "$src/meta.json" "$d/meta.json" "$id" "$verdicts" "$tests" <<'PY'
 import json,sys
 try: m=json.load(open(sys.argv[1]))
